@@ -14,11 +14,13 @@ class _FakeDigest:
     def __init__(self, k):
         self.k = k
 
+    # the digest bits after the first 32 are all ONES: an implementation that (wrongly) lets more than the first
+    # 32 bits decide the position lands almost one grid point later and is seen at the exact boundaries
     def hexdigest(self):
-        return f"{self.k:08x}" + "0" * 24
+        return f"{self.k:08x}" + "f" * 24
 
     def digest(self):
-        return self.k.to_bytes(4, "big") + b"\0" * 12
+        return self.k.to_bytes(4, "big") + b"\xff" * 12
 
 
 class HashSeam:
